@@ -281,6 +281,86 @@ def taint(run, m, F):
     return n
 
 
+def fold_agreement(run, m, F):
+    """R06.8: every routine that *orders* case-insensitively orders the units after the same fold.  The fold of the three-argument
+    core compare_ci (R06.6) is the reference; a library function reachable from the compare family in which units folded by the other
+    map reach a subtraction or an ordering comparison sorts the units 0x5B..0x60 ([ \\ ] ^ _ `) on the other side of the letters
+    than its siblings do, so the overloads / functors / operators disagree (witness '_' against 'x').  Equality-only uses (a hit
+    test) are not affected by which fold is used."""
+    from .common import tainted_insts
+    core = None
+    for name in F.lib:
+        if m.func(name).dem.startswith('_ST_PRIVATE::compare_ci(char const*, char const*, unsigned long)'):
+            core = m.func(name)
+    if core is None:
+        run.ob('R06.8', 'compare_ci', None, 'three-argument core compare_ci not found', loc='')
+        return 0
+
+    def folds_called(g):
+        out = {}
+        for i in g.all_insts():
+            if i.op in ('call', 'invoke') and i.callee:
+                d = m.dem(i.callee)
+                mt = re.match(r'^_ST_PRIVATE::cl_fast_(lower|upper)\(char\)', d)
+                if mt:
+                    out.setdefault(mt.group(1), []).append(i)
+        return out
+    ref = set(folds_called(core))
+    if len(ref) != 1:
+        run.ob('R06.8', short(core.dem), None, 'the core does not fold with exactly one of cl_fast_lower / cl_fast_upper (%s)' % sorted(ref), loc=fn_loc(core))
+        return 0
+    ref = list(ref)[0]
+    roots = [name for name in F.lib if re.match(r'^(ST::string::compare(_n|_i|_ni)?\(|ST::(less_i|equal_i)::operator\(\)|ST::buffer<.*>::compare)', m.func(name).dem)]
+    n = 0
+    seen = set()
+    for t in list(roots) + [x for x in F.reachable_from(roots) if m.has(x)]:
+        if t in seen or not m.has(t):
+            continue
+        seen.add(t)
+        g = m.func(t)
+        if not m.is_lib(g):
+            continue
+        fc = folds_called(g)
+        other = [k for k in fc if k != ref]
+        if not fc:
+            continue
+        n += 1
+        bad = None
+        for k in other:
+            for call in fc[k]:
+                tset = set([call.id])
+                changed = True
+                while changed:
+                    changed = False
+                    for i in g.all_insts():
+                        if i.id in tset:
+                            continue
+                        ops = [x[0] for x in i.d.get('inc', [])] if i.op == 'phi' else i.a
+                        ids = set()
+                        from .common import _operand_ids
+                        _operand_ids(ops, ids)
+                        if ids & tset and i.op in ('zext', 'sext', 'trunc', 'phi', 'select', 'sub', 'icmp'):
+                            tset.add(i.id)
+                            changed = True
+                for i in g.all_insts():
+                    if i.id in tset and (i.op == 'sub' or (i.op == 'icmp' and i.d.get('pred') not in ('eq', 'ne'))):
+                        bad = (k, i)
+                        break
+                if bad:
+                    break
+            if bad:
+                break
+        if bad:
+            run.ob('R06.8', short(g.dem), False,
+                   'orders units after folding them with cl_fast_%s (line %d) while the core compare_ci folds with cl_fast_%s: the units 0x5B..0x60 fall on '
+                   'the other side of the letters, so this routine and its siblings order "_" and "x" differently (0x5F < 0x78 after the lower '
+                   'fold, 0x5F > 0x58 after the upper fold)' % (bad[0], bad[1].line, ref), loc=fn_loc(g), disc='fold of an ordering')
+        else:
+            run.ob('R06.8', short(g.dem), True, 'orders after the same fold as the core (cl_fast_%s)%s' % (ref, '' if not other else '; the other fold only feeds equality tests'),
+                   disc='fold of an ordering')
+    return n
+
+
 def derived(run, m, F, E):
     """R06.3: members and operators are a core applied to (data,size) of both operands + a predicate on its result."""
     L = own.buffer_layout(m, 'char')
@@ -800,6 +880,7 @@ def check(run):
     run.floor('derived members / operators', derived(run, m, F, E), 14)
     ci_step(run, m, F, E)
     run.floor('case maps', case_maps(run, m, F), 2)
+    run.floor('routines ordering folded units', fold_agreement(run, m, F), 1)
     run.floor('members scanned for NUL-stopping primitives', nul_blind(run, m, F), 300)
     if run.config == REFERENCE_CONFIG:
         import os
